@@ -167,3 +167,47 @@ package parser
 //@   loop 1 invariant [inv] lexinv(l) && l.source == old(l.source)
 //@   loop 1 invariant [cols] colsok(l.tokens) && l.column >= 1
 //@   loop 1 decreases len(l.source) - l.pos
+
+// ---- dependency order of module-scope declarations (C11, C09) --------------------------------
+//
+// Declarations are lowered in dependency order; a use that the collector does
+// not see makes the user be lowered before its callee, and the checks that need
+// the callee's signature (argument count and types) are skipped. The collector
+// must therefore reach every nested statement, block, expression and type of
+// every statement / expression / type node (obligations derived from the Go
+// declarations of the syntax tree; nested nodes of the same interface are the
+// recursive call's business).
+//
+//@ func collectStmtDeps
+//@   mode bv
+//@   tags C11 C09
+//@   ghostcall collectStmtDeps visitedStmt
+//@   ghostcall collectBlockDeps visitedBlock
+//@   ghostcall collectExprDeps visitedExpr
+//@   ghostcall collectTypeRefs visitedType
+//@   callback add addedName
+//@   traverse mark s *BlockStmt visitedBlock($)
+//@   traverse mark s Stmt visitedStmt($)
+//@   traverse mark s Expr visitedExpr($)
+//@   traverse mark s Type visitedType($)
+//
+//@ func collectExprDeps
+//@   mode bv
+//@   tags C11 C09
+//@   ghostcall collectExprDeps visitedExpr
+//@   ghostcall collectTypeRefs visitedType
+//@   callback add addedName
+//@   traverse mark e Expr visitedExpr($)
+//@   traverse mark e Type visitedType($)
+//@   loop 1 invariant [args] forall j int :: 0 <= j && j <= rangeindex && j < len(e.Args) && !isnil(e.Args[j]) ==> visitedExpr(e.Args[j])
+//@   loop 2 invariant [args] forall j int :: 0 <= j && j <= rangeindex && j < len(e.Args) && !isnil(e.Args[j]) ==> visitedExpr(e.Args[j])
+//
+//@ func collectTypeRefs
+//@   mode bv
+//@   tags C11 C09
+//@   ghostcall collectExprDeps visitedExpr
+//@   ghostcall collectTypeRefs visitedType
+//@   callback add addedName
+//@   traverse mark t Type visitedType($)
+//@   traverse mark t Expr visitedExpr($)
+//@   loop 1 invariant [params] forall j int :: 0 <= j && j <= rangeindex && j < len(t.TypeParams) && !isnil(t.TypeParams[j]) ==> visitedType(t.TypeParams[j])
